@@ -14,9 +14,21 @@ vars == <<i, st, bad>>
 Empty == [endian |-> "le", data |-> <<>>, text |-> <<>>, ptrs |-> <<>>, labels |-> <<>>, cstr |-> <<>>]
 Init == i = 1 /\ st = Empty /\ bad = <<>>
 
+\* serialize() after an arbitrary history (C02 "whatever the order of the calls that built them", C01 well-formedness):
+\* when the logged state is inside the domain of the format properties, the image must be well-formed for it,
+\* re-parse (reference parser) to the same content and - without pending c-strings, where the byte image is
+\* determined - be exactly the canonical image of the state.  The call never changes the archive.
+BF == INSTANCE BinFormat
+SerializeOK(s, f) ==
+  IF ~BF!ValidContent(s) THEN TRUE
+  ELSE /\ BF!WellFormedFor(f, s)
+       /\ LET r == BF!RefParse(f, s.endian) IN r.ok /\ BF!SameContent(r.c, BF!Reparsed(s))
+       /\ (Len(s.cstr) = 0 /\ (s.endian = "le" \/ BF!BEOrderDetermined(s))) => f = BF!Canon(s)
+
 Accept(ev) ==
   \/ ev.op = "reset"
-  \/ Allowed(st, ev, [res |-> ev.res, pos |-> ev.pos, st |-> ev.post])
+  \/ ev.op = "serialize" /\ ev.post = st /\ (BF!ValidContent(st) => ev.res.ok) /\ (ev.res.ok => SerializeOK(st, ev.res.v))
+  \/ ev.op # "serialize" /\ Allowed(st, ev, [res |-> ev.res, pos |-> ev.pos, st |-> ev.post])
 
 Next ==
   /\ i <= Len(Rec)
